@@ -1,6 +1,6 @@
 (* C10 — message payloads: attribute objects <-> protobuf.  Statements only; proofs are in
    C10/C10Proofs.v (generic over converter tables) and C10/C10Inst.v (generated table). *)
-From YV Require Import Common.Tac C10.C10Model C10.C10Proofs C10.C10Payload C10.C10PayloadProofs Gen.C10Table Gen.C10Probes C10.C10Inst.
+From YV Require Import Common.Tac C10.C10Model C10.C10Proofs C10.C10Payload C10.C10PayloadProofs C10.C10Edit C10.C10EditProofs Gen.C10Table Gen.C10Probes C10.C10Inst.
 
 (* Every attribute object in the COMPUTED domain serialises without raising, parses back without
    raising, and every field the sender set comes back with the same value (an unset field comes
@@ -180,3 +180,62 @@ Theorem C10_unrepaired_payload_classes :
         /\ in_domain_f 8 unrepaired_payload_table "message"%name a = false).
 Proof. exact unrepaired_payload_classes. Qed.
 Print Assumptions C10_unrepaired_payload_classes.
+
+(* ====================== edit after parse ====================== *)
+(* In the model an attribute object IS its value (class name + fields): there is no place for state
+   outside the modelled fields, so the statement below is true by construction; what it adds is that
+   only the values the fields READ matter (first-match lookup), not the representation.  Its role is
+   to be the statement the harness exercises on the implementation with objects OBTAINED BY PARSING
+   (protobytes_to_message / fromProtocolTreeNode) and then edited through the real setters. *)
+Theorem C10_serialise_depends_on_value_only : forall T n cn a b,
+  (forall f, vget a f = vget b f) -> to_proto_f n T cn a = to_proto_f n T cn b.
+Proof. exact serialise_depends_on_value_only_thm. Qed.
+Print Assumptions C10_serialise_depends_on_value_only.
+
+(* a' = the object after the assignment a.phi = v (set_path; nothing else changes).  If a' is in the
+   computed domain it serialises, parses back, the result covers a'; the edited path of a' reads the
+   new value and every path that parts ways with phi reads what it read in a.  (However a was obtained.) *)
+Theorem C10_edit_then_roundtrip : forall T n cn a phi v,
+  in_domain_f n T cn (set_path phi v a) = true ->
+  exists p b, to_proto_f n T cn (set_path phi v a) = Ok p /\ from_proto_f n T cn p = Ok b
+    /\ covers (set_path phi v a) b
+    /\ (get_path phi a <> None -> get_path phi (set_path phi v a) = Some v)
+    /\ (forall psi, diverges phi psi = true -> get_path psi (set_path phi v a) = get_path psi a).
+Proof. exact edit_then_roundtrip_thm. Qed.
+Print Assumptions C10_edit_then_roundtrip.
+
+(* any number of assignments between two serialisations *)
+Theorem C10_edits_then_roundtrip : forall T n cn a edits,
+  in_domain_f n T cn (set_paths edits a) = true ->
+  exists p b, to_proto_f n T cn (set_paths edits a) = Ok p /\ from_proto_f n T cn p = Ok b
+    /\ covers (set_paths edits a) b.
+Proof. exact edits_then_roundtrip_thm. Qed.
+Print Assumptions C10_edits_then_roundtrip.
+
+(* "stays in the domain": in_domain is a whole-object condition (aliased attributes equal, required
+   fields set), so not every assignment keeps it; but it is compositional.  For a IN the domain and an
+   assignment a.pre.g = v at any depth: if the object holding g stays in every sub-domain it was in
+   (dom_le, one level; computable by dom_le_b), the edited whole object stays in the domain, hence
+   serialises, parses back and is covered. *)
+Theorem C10_edit_in_domain_roundtrip : forall T n cn a pre g v c0 fx,
+  in_domain_f (length pre + n) T cn a = true ->
+  get_path pre a = Some (VRec c0 fx) ->
+  dom_le n T (VRec c0 fx) (set_path [g] v (VRec c0 fx)) ->
+  exists p b, to_proto_f (length pre + n) T cn (set_path (pre ++ [g]) v a) = Ok p
+    /\ from_proto_f (length pre + n) T cn p = Ok b
+    /\ covers (set_path (pre ++ [g]) v a) b.
+Proof. exact edit_in_domain_roundtrip_thm. Qed.
+Print Assumptions C10_edit_in_domain_roundtrip.
+
+(* non-vacuity: the object parsed from a payload (extended text quoting a conversation, mentions, a
+   location with a present empty name), edited at depth 4, on a list and by un-setting a field, is
+   in the domain *)
+Theorem C10_edit_after_parse_meets_hypotheses :
+  (get_path quoted_conv_path parsed_edit,
+   in_domain_f 8 table "message"%name
+     (set_paths [(quoted_conv_path, new_text);
+                 (["extended_text"%name; "context_info"%name; "mentioned_jid"%name], VList [VStr [99%N]]);
+                 (["location"%name; "name"%name], VNone)] parsed_edit))
+  = (Some (VStr [100%N; 101%N; 101%N; 112%N]), true).
+Proof. exact edit_after_parse_meets_hypotheses. Qed.
+Print Assumptions C10_edit_after_parse_meets_hypotheses.
